@@ -992,3 +992,11 @@ r7("C18", "r5-zip-symlink-members", "C18-g1", "C18-R5|updater.copyFromZipArchive
 r7("C19", "r12-download-not-marked-active", "C19-g1", "C19-R12|updater.(*ResourceRegistry).GetFile")
 r7("C19", "r13-file-version-pattern-single-digit", "C19-g2", "C19-R13|updater version patterns agree")
 r7("C20", "r9-tracer-first-line-unguarded", "C20-g1", "C20-R9|log.formatLine")
+
+# A8 tail-relative accesses (x[len(x)-k], x[:len(x)-k])
+mut("C20", "r9-package-segment-check-too-low", "log/input.go",
+    "\t\tif len(pathSegments) < 2 {\n\t\t\t// file too short for package levels", "\t\tif len(pathSegments) < 1 {\n\t\t\t// file too short for package levels", "C20-R9|log.log", comment="x[len(x)-2] needs len >= 2")
+mut("C20", "r9-file-suffix-cut-unguarded", "log/input.go",
+    "\t\tif len(file) > 3 {\n\t\t\tfile = file[:len(file)-3]", "\t\tif len(file) > 1 {\n\t\t\tfile = file[:len(file)-3]", "C20-R9|log.log", comment="x[:len(x)-3] needs len >= 3")
+mut("C20", "r9-submit-empty-tracer-unguarded", "log/trace.go",
+    "\tif len(tracer.logs) == 0 {\n\t\treturn\n\t}\n\n\t// extract last line as main line", "\t// extract last line as main line", "C20-R9|log.(*ContextTracer).Submit", comment="x[len(x)-1] on an empty tracer")
